@@ -102,7 +102,24 @@ func buildPool(t *rapid.T, next http.Handler, maxW int) (*roundrobin.RoundRobin,
 		i := rapid.IntRange(0, 7).Draw(t, "hsrv")
 		name := fmt.Sprintf("http://s%d", i)
 		idx := find(name)
-		switch rapid.IntRange(0, 2).Draw(t, "hop") {
+		hop := rapid.IntRange(0, 3).Draw(t, "hop")
+		if hop == 3 { // drain every member to weight 0, try a few selections, maybe re-enable one
+			for i := range model {
+				if err := rr.UpsertServer(mustURL(model[i].name), roundrobin.Weight(0)); err != nil {
+					t.Fatalf("upsert: %v", err)
+				}
+				model[i].w = 0
+			}
+			log = append(log, "drain-all")
+			interesting = true
+			for k := rapid.IntRange(1, 3).Draw(t, "drainedSel"); k > 0; k-- {
+				if u, err := rr.NextServer(); err == nil {
+					t.Fatalf("all %d servers have weight 0 but %s was selected (history %v)", len(model), u, log)
+				}
+			}
+			continue
+		}
+		switch hop {
 		case 0, 1: // upsert (add or re-weight)
 			w := genWeight(t, maxW)
 			if err := rr.UpsertServer(mustURL(name), roundrobin.Weight(w)); err != nil {
